@@ -1,4 +1,4 @@
-CONSTANTS Scope = "small" OneByOne = FALSE Mutant = "none"
+CONSTANTS Scope = "small" OneByOne = FALSE Mutant = "none" Pick = {}
 SPECIFICATION Spec
 INVARIANT TypeOK
 INVARIANT Inv_Fail
